@@ -23,7 +23,7 @@ EXPLANATION = (
     "with interpolation exact at entered years, linear in between, constant outside. Stocks are cut after each step (fresh non-negative variables), so each index is checked from an arbitrary state. "
     "Bounds: <= 7 parameters, <= 3 data years, T <= 4 time points, dt = 0.25; values in unit ranges, factors in [0.1,10]. Outside: derivative parameters, pchip smoothing, float rounding."
 )
-GROUP_TIMEOUT = {"quick": 900, "thorough": 3000}
+GROUP_TIMEOUT = {"quick": 1800, "thorough": 3600}
 
 PATTERNS = {
     "assumption": None,
